@@ -338,7 +338,7 @@ def run_fuzz(c, tier):
     # the budget is a number of executions per worker (about 45 s x 8 / 15 min x 16 on an idle 16-core machine); the
     # wall-clock limit is only a watchdog.  A launch that ends with a crash is followed by another one for the rest.
     workers = 8 if tier == "quick" else 16
-    per_worker = 1700 if tier == "quick" else 22000
+    per_worker = 1350 if tier == "quick" else 22000
     total = 240 if tier == "quick" else 2400
     max_launches = 15 if tier == "quick" else 80
     deadline = time.time() + total
@@ -460,7 +460,7 @@ def run_fuzz(c, tier):
         with open(sp, "w") as f:
             f.write("\n".join(trace) + "\n\n" + t["err"][-20000:])
         head = (common.sanitizer_report(t["err"]) or t["kind"])
-        seq = [l[len("FZ_SCRIPT "):] for l in trace if not l.startswith("FZ_SCRIPT cmd [\"cv\",\"reset\"]")][-8:]
+        seq = [l[len("FZ_SCRIPT "):] for l in trace][-8:]
         text = ("%s; innermost Colvars frame / first differing epilogue record %s; %d artifact(s); last commands of the "
                 "minimised sequence (%d bytes): %s" % (head, t["frame"], len(ts), len(small), " | ".join(s[:160] for s in seq)))
         found.append(key)
@@ -587,6 +587,11 @@ def agree_queries(case):
     q.append(("af", "", ["cv", "getatomappliedforces"]))
     q.append(("nact", "", ["cv", "getnumactiveatoms"]))
     q.append(("state", "", ["cv", "savetostring"]))
+    # a command without a result and a failing command right after one with a long result: what they return must be
+    # their own (empty result / error message), not what the previous command left
+    q.append(("empty", "", ["cv", "addenergy", "0"]))
+    q.append(("state2", "", ["cv", "savetostring"]))
+    q.append(("errmsg", "", ["cv", "colvar", "no_such_variable", "value"]))
     q.append(("it", "", ["cv", "getstepabsolute"]))
     return q
 
@@ -653,6 +658,18 @@ def check_agree(c, case, r, ev, sp):
         for (kind, name, argv), e in zip(q, qs):
             res = e["res"]
             where = "step %d, %s" % (st["it"], " ".join(argv))
+            if kind == "errmsg":
+                if e["rc"] == 0 or "configuration" in res or len(res) > 300:
+                    viol("agree:stale_result:after_error", "%s (after cv savetostring) returned %d and the result %r" % (where, e["rc"], res[:120]))
+                ncmp += 1
+                continue
+            if kind == "empty":
+                if e["rc"] != 0 or res != "":
+                    viol("agree:stale_result:command_without_result", "%s (after cv savetostring) returned %d and the result %r" % (where, e["rc"], res[:120]))
+                ncmp += 1
+                continue
+            if kind == "state2":
+                continue
             if e["rc"] != 0:
                 viol("agree_query_failed:" + argv[-1], "%s returned %d: %s" % (where, e["rc"], res[:200]))
                 continue
